@@ -199,7 +199,7 @@ Section C03.
         assert (Hlen : length dets = length ws) by (symmetry; apply winners_length; exact Hsound).
         rewrite map_snd_combine by exact Hlen. intro Hi. apply winners_in_rel in Hi. destruct Hi as [t' [Ht' E]].
         unfold rel, pc_rel in Ht'. apply filter_In in Ht'. destruct Ht' as [Hl' Hr'].
-        assert (t' = t) by (apply (NoDup_id_eq (live p)); assumption). subst t'. congruence.
+        assert (t' = t) by (apply (NoDup_id_eq (live p)); assumption). subst t'. unfold epoch in Hnr. congruence.
       - right. rewrite A2. exact Hw.
     Qed.
   End Sound.
